@@ -61,6 +61,7 @@ type Contract struct {
 	Nilable      bool                 // the receiver may be nil (no non-nil assumption at entry)
 	LemmaList    []string             // if HasLemmaList: only these lemmas are added as axioms
 	HasLemmaList bool
+	StepFrames   bool   // prove (and then use) the frame relative to function entry after every call (long call chains)
 	ClosedWorld  bool   // interface contract: every implementation in the module is verified against it
 	Implements   string // "Iface.Method": the interface contract this method must also satisfy (behavioural subtyping)
 	TypedHeap    bool // state well-typedness of unconstrained heap versions as axioms (needed for heap reads in specs)
@@ -127,7 +128,7 @@ type ContractSet struct {
 var clauseKeywords = map[string]bool{
 	"func": true, "spec": true, "extern": true, "iface": true, "closure": true, "callback": true, "requires": true, "ensures": true,
 	"loop": true, "modifies": true, "inline": true, "noinline": true, "trusted": true, "pure": true, "lemma": true,
-	"axiom": true, "ghost": true, "type": true, "opaque": true, "noreturn": true, "replay": true, "recspec": true, "uspec": true, "uses": true, "nilable": true, "implements": true, "closedworld": true, "typedheap": true, "lemmas": true, "immutable": true, "atcall": true,
+	"axiom": true, "ghost": true, "type": true, "opaque": true, "noreturn": true, "replay": true, "recspec": true, "uspec": true, "uses": true, "nilable": true, "implements": true, "closedworld": true, "stepframes": true, "typedheap": true, "lemmas": true, "immutable": true, "atcall": true,
 }
 
 var propsRe = regexp.MustCompile(`^\[((?:C[0-9]+)(?:\s*,\s*C[0-9]+)*)\]\s*`)
@@ -366,10 +367,16 @@ func (cs *ContractSet) LoadFile(path, pkgPath string) {
 				case it == "" || it == "nothing":
 				case it == "*":
 					cur.Modifies = append(cur.Modifies, ModItem{Src: it, All: true})
-				case strings.HasPrefix(it, "heap "):
-					cur.Modifies = append(cur.Modifies, ModItem{Src: it, Heap: strings.TrimSpace(it[5:])})
-				case strings.HasPrefix(it, "fresh "):
-					cur.Modifies = append(cur.Modifies, ModItem{Src: it, Heap: strings.TrimSpace(it[6:]), Fresh: true})
+				case strings.HasPrefix(it, "heap "), strings.HasPrefix(it, "fresh "):
+					fr := strings.HasPrefix(it, "fresh ")
+					hn := strings.TrimSpace(it[strings.Index(it, " ")+1:])
+					cur.Modifies = append(cur.Modifies, ModItem{Src: it, Heap: hn, Fresh: fr})
+					// the two heaps of a map type go together (presence and values)
+					if strings.HasPrefix(hn, "MH.") {
+						cur.Modifies = append(cur.Modifies, ModItem{Src: it, Heap: "MV." + hn[3:], Fresh: fr})
+					} else if strings.HasPrefix(hn, "MV.") {
+						cur.Modifies = append(cur.Modifies, ModItem{Src: it, Heap: "MH." + hn[3:], Fresh: fr})
+					}
 				default:
 					src := strings.Replace(strings.Replace(it, ".*", ".ALLFIELDS", 1), "[*]", ".ALLELEMS", 1)
 					e, err := parseExpr(src)
@@ -393,6 +400,10 @@ func (cs *ContractSet) LoadFile(path, pkgPath string) {
 		case "typedheap":
 			if cur != nil {
 				cur.TypedHeap = true
+			}
+		case "stepframes":
+			if cur != nil {
+				cur.StepFrames = true
 			}
 		case "closedworld":
 			if cur != nil {
